@@ -22,6 +22,31 @@ from xdsl.pattern_rewriter import (
 from xdsl.traits import ConstantLike
 
 
+def _fits_si12(value: int) -> bool:
+    """
+    Whether `value` can be encoded as the 12-bit signed immediate of an I/S-type
+    instruction.
+    """
+    return -2048 <= value < 2048
+
+
+def _folded_li_immediate(
+    value: int, *sources: IntegerAttr[I32] | IntegerAttr[I64]
+) -> IntegerAttr[I32] | None:
+    """
+    The immediate of the `li` that materialises `value`, the exact result of an
+    operation on the constants `sources`.
+    Registers hold XLEN bits: a result computed from 32-bit constants wraps at 32
+    bits. A result computed from 64-bit constants is only folded if it is a signed
+    32-bit value, which `li` loads identically on RV32 and RV64.
+    """
+    if all(source.type == i32 for source in sources):
+        return IntegerAttr(value, i32, truncate_bits=True)
+    if -(2**31) <= value < 2**31:
+        return IntegerAttr(value, i32)
+    return None
+
+
 class RemoveRedundantMv(RewritePattern):
     @op_type_rewrite_pattern
     def match_and_rewrite(self, op: riscv.MVOp, rewriter: PatternRewriter) -> None:
@@ -76,7 +101,10 @@ class MultiplyImmediates(RewritePattern):
                 else:
                     return
             case int(), int():
-                rewriter.replace(op, rv32.LiOp(lhs * rhs, rd=rd))
+                assert rs1 is not None
+                assert rs2 is not None
+                if (imm := _folded_li_immediate(lhs * rhs, rs1, rs2)) is not None:
+                    rewriter.replace(op, rv32.LiOp(imm, rd=rd))
             case _:
                 return
 
@@ -112,6 +140,8 @@ class AddImmediates(RewritePattern):
 
         match (lhs, rhs):
             case int(), None:
+                if not _fits_si12(lhs):
+                    return
                 rewriter.replace(
                     op,
                     riscv.AddiOp(
@@ -122,6 +152,8 @@ class AddImmediates(RewritePattern):
                     ),
                 )
             case None, int():
+                if not _fits_si12(rhs):
+                    return
                 rewriter.replace(
                     op,
                     riscv.AddiOp(
@@ -132,7 +164,10 @@ class AddImmediates(RewritePattern):
                     ),
                 )
             case int(), int():
-                rewriter.replace(op, rv32.LiOp(lhs + rhs, rd=rd, comment=op.comment))
+                assert rs1 is not None
+                assert rs2 is not None
+                if (imm := _folded_li_immediate(lhs + rhs, rs1, rs2)) is not None:
+                    rewriter.replace(op, rv32.LiOp(imm, rd=rd, comment=op.comment))
             case _:
                 pass
 
@@ -152,10 +187,13 @@ class AddImmediateConstant(RewritePattern):
             op.immediate, IntegerAttr
         ):
             rd = op.rd.type
+            imm = _folded_li_immediate(rs1.value.data + op.immediate.value.data, rs1)
+            if imm is None:
+                return
             rewriter.replace(
                 op,
                 rv32.LiOp(
-                    rs1.value.data + op.immediate.value.data,
+                    imm,
                     rd=rd,
                     comment=op.comment,
                 ),
@@ -180,6 +218,8 @@ class SubImmediates(RewritePattern):
                 # TODO: anything to do here?
                 return
             case None, int():
+                if not _fits_si12(-rhs):
+                    return
                 rewriter.replace(
                     op,
                     riscv.AddiOp(
@@ -190,7 +230,10 @@ class SubImmediates(RewritePattern):
                     ),
                 )
             case int(), int():
-                rewriter.replace(op, rv32.LiOp(lhs - rhs, rd=rd, comment=op.comment))
+                assert rs1 is not None
+                assert rs2 is not None
+                if (imm := _folded_li_immediate(lhs - rhs, rs1, rs2)) is not None:
+                    rewriter.replace(op, rv32.LiOp(imm, rd=rd, comment=op.comment))
             case _:
                 pass
 
@@ -399,13 +442,16 @@ class LoadWordWithKnownOffset(RewritePattern):
             and isinstance(op.rs1.op, riscv.AddiOp)
             and isinstance(op.rs1.op.immediate, IntegerAttr)
             and isinstance(op.immediate, IntegerAttr)
+            and _fits_si12(
+                offset := op.rs1.op.immediate.value.data + op.immediate.value.data
+            )
         ):
             rd = op.rd.type
             rewriter.replace(
                 op,
                 riscv.LwOp(
                     op.rs1.op.rs1,
-                    op.rs1.op.immediate.value.data + op.immediate.value.data,
+                    offset,
                     rd=rd,
                     comment=op.comment,
                 ),
@@ -419,13 +465,16 @@ class StoreWordWithKnownOffset(RewritePattern):
             isinstance(op.rs1, OpResult)
             and isinstance(op.rs1.op, riscv.AddiOp)
             and isinstance(op.rs1.op.immediate, IntegerAttr)
+            and _fits_si12(
+                offset := op.rs1.op.immediate.value.data + op.immediate.value.data
+            )
         ):
             rewriter.replace(
                 op,
                 riscv.SwOp(
                     op.rs1.op.rs1,
                     op.rs2,
-                    op.rs1.op.immediate.value.data + op.immediate.value.data,
+                    offset,
                     comment=op.comment,
                 ),
             )
@@ -439,13 +488,16 @@ class LoadFloatWordWithKnownOffset(RewritePattern):
             and isinstance(op.rs1.op, riscv.AddiOp)
             and isinstance(op.rs1.op.immediate, IntegerAttr)
             and isinstance(op.immediate, IntegerAttr)
+            and _fits_si12(
+                offset := op.rs1.op.immediate.value.data + op.immediate.value.data
+            )
         ):
             rd = op.rd.type
             rewriter.replace(
                 op,
                 riscv.FLwOp(
                     op.rs1.op.rs1,
-                    op.rs1.op.immediate.value.data + op.immediate.value.data,
+                    offset,
                     rd=rd,
                     comment=op.comment,
                 ),
@@ -459,13 +511,16 @@ class StoreFloatWordWithKnownOffset(RewritePattern):
             isinstance(op.rs1, OpResult)
             and isinstance(op.rs1.op, riscv.AddiOp)
             and isinstance(op.rs1.op.immediate, IntegerAttr)
+            and _fits_si12(
+                offset := op.rs1.op.immediate.value.data + op.immediate.value.data
+            )
         ):
             rewriter.replace(
                 op,
                 riscv.FSwOp(
                     op.rs1.op.rs1,
                     op.rs2,
-                    op.rs1.op.immediate.value.data + op.immediate.value.data,
+                    offset,
                     comment=op.comment,
                 ),
             )
@@ -479,13 +534,16 @@ class LoadDoubleWithKnownOffset(RewritePattern):
             and isinstance(op.rs1.op, riscv.AddiOp)
             and isinstance(op.rs1.op.immediate, IntegerAttr)
             and isinstance(op.immediate, IntegerAttr)
+            and _fits_si12(
+                offset := op.rs1.op.immediate.value.data + op.immediate.value.data
+            )
         ):
             rd = op.rd.type
             rewriter.replace(
                 op,
                 riscv.FLdOp(
                     op.rs1.op.rs1,
-                    op.rs1.op.immediate.value.data + op.immediate.value.data,
+                    offset,
                     rd=rd,
                     comment=op.comment,
                 ),
@@ -499,13 +557,16 @@ class StoreDoubleWithKnownOffset(RewritePattern):
             isinstance(op.rs1, OpResult)
             and isinstance(op.rs1.op, riscv.AddiOp)
             and isinstance(op.rs1.op.immediate, IntegerAttr)
+            and _fits_si12(
+                offset := op.rs1.op.immediate.value.data + op.immediate.value.data
+            )
         ):
             rewriter.replace(
                 op,
                 riscv.FSdOp(
                     op.rs1.op.rs1,
                     op.rs2,
-                    op.rs1.op.immediate.value.data + op.immediate.value.data,
+                    offset,
                     comment=op.comment,
                 ),
             )
